@@ -386,10 +386,10 @@ fn run_one(rt: &tokio::runtime::Runtime, plan: &Plan) -> RunRecord {
     });
     sleep_until(sh.t0 + Duration::from_millis(plan.call_at_ms));
     let mode = match plan.timeout_ms {
-        Some(ms) => ShutdownMode::Graceful { timeout: Duration::from_millis(ms) },
+        Some(ms) => ShutdownMode::Graceful { timeout: plan::timeout_duration(ms) },
         None => ShutdownMode::Forced,
     };
-    let wd = WATCHDOG + Duration::from_millis(plan.timeout_ms.unwrap_or(0));
+    let wd = WATCHDOG + Duration::from_millis(plan.timeout_ms.unwrap_or(0).min(5_000));
     verif::event("shutdown_called", 0u64, 0u64);
     rec.resolved = rt.block_on(async { tokio::time::timeout(wd, handle.shutdown(mode)).await.is_ok() });
     if rec.resolved {
